@@ -24,7 +24,7 @@ var invalidNames = []string{"", ".", "..", "a/b", "/", "x\x00y"}
 
 var (
 	messageMalformations = []string{"invalid_name", "duplicate", "bad_digest", "garbage_dir"}
-	blobMalformations    = []string{"missing_dir", "corrupt_dir", "missing_file", "corrupt_file"}
+	blobMalformations    = []string{"missing_dir", "corrupt_dir", "missing_file", "corrupt_file", "short_file"}
 )
 
 func drawMalformations(rt *rapid.T, g *dagSpec) []malform {
@@ -34,8 +34,9 @@ func drawMalformations(rt *rapid.T, g *dagSpec) []malform {
 		kinds := append(append([]string(nil), messageMalformations...), blobMalformations...)
 		m := malform{Kind: rapid.SampledFrom(kinds).Draw(rt, "malformation")}
 		switch m.Kind {
-		case "missing_file", "corrupt_file":
+		case "missing_file", "corrupt_file", "short_file":
 			m.Content = rapid.IntRange(0, len(g.Contents)-1).Draw(rt, "content")
+			m.Variant = rapid.IntRange(0, 80).Draw(rt, "variant")
 		default:
 			// Bias away from the root, so that the lazily loaded
 			// part of the tree is where the trouble usually is.
@@ -132,6 +133,7 @@ func materializeWith(c *fakeCAS, g *dagSpec, malforms []malform) (mat *materiali
 	badTmpl, badContent = map[int]string{}, map[int]string{}
 	for _, content := range g.Contents {
 		mat.fileDigest = append(mat.fileDigest, c.store([]byte(content)))
+		c.fileKeys[casKey(mat.fileDigest[len(mat.fileDigest)-1])] = len(content) > 0
 	}
 	for t, d := range g.Dirs {
 		msg := encodeDir(g, d, mat.dirDigests, mat.fileDigest)
@@ -190,7 +192,7 @@ func materializeWith(c *fakeCAS, g *dagSpec, malforms []malform) (mat *materiali
 				}
 				c.blobs[key] = bad
 			}
-		case "missing_file", "corrupt_file":
+		case "missing_file", "corrupt_file", "short_file":
 			i := m.Content
 			if badContent[i] != "" || len(g.Contents[i]) == 0 {
 				continue // reads of empty files never reach the CAS
@@ -200,12 +202,17 @@ func materializeWith(c *fakeCAS, g *dagSpec, malforms []malform) (mat *materiali
 			fixes = append(fixes, fix{key, []byte(g.Contents[i])})
 			fixedContent = append(fixedContent, i)
 			badContent[i] = m.Kind
-			if m.Kind == "missing_file" {
+			switch m.Kind {
+			case "missing_file":
 				delete(c.blobs, key)
-			} else {
+			case "corrupt_file":
 				bad := []byte(g.Contents[i])
 				bad[0] ^= 0x20
 				c.blobs[key] = bad
+			default:
+				// The medium lost 1..len bytes of the tail and the
+				// backend does not validate what it hands out.
+				c.shortBy[key] = 1 + m.Variant%len(g.Contents[i])
 			}
 		}
 	}
@@ -230,6 +237,7 @@ func materializeWith(c *fakeCAS, g *dagSpec, malforms []malform) (mat *materiali
 	repair = func() ([]int, []int) {
 		for _, f := range fixes {
 			c.blobs[f.key] = append([]byte(nil), f.data...)
+			delete(c.shortBy, f.key)
 		}
 		return fixedTmpl, fixedContent
 	}
